@@ -20,6 +20,7 @@ class SchedMethod(ObjMethod):
         ObjMethod.__init__(self, fd, {}, state_type, fields, {}, objmethods, {})
         self.ret = "handover"
         self.fresh_dicts = set()     # dict variables that are still empty
+        self.lock_depth = 0          # statements inside `with self.__jobs_lock:`
 
     def e(self, n):
         if isinstance(n, ast.Call):
@@ -100,15 +101,27 @@ class SchedMethod(ObjMethod):
             fail(self.fd, "control reaches the end of exec_jobs")
         s, rest = stmts[0], stmts[1:]
         # return self.__exec_jobs(batch, ref_dt)
+        if isinstance(s, ast.Expr) and isinstance(s.value, ast.Constant) and s.value.value == "__unlock__":
+            self.lock_depth -= 1
+            try:
+                return self.block(rest)
+            finally:
+                self.lock_depth += 1
         if isinstance(s, ast.Return) and isinstance(s.value, ast.Call) and self.fkey(s.value.func) == "__exec_jobs" \
                 and len(s.value.args) == 2 and not s.value.keywords:
+            if self.lock_depth:
+                fail(s, "the batch is handed to the workers while the registry lock is held")
             pre, a, ta = self.expr(s.value.args[0])
             pre2, b, tb = self.expr(s.value.args[1])
             if ta != "list:jobobj" or tb != "datetime":
                 fail(s, "hand-over typing")
             return self.wrap(pre + pre2, "(Ok (%s, %s))" % (a, b))
         if isinstance(s, ast.With) and len(s.items) == 1 and ast.unparse(s.items[0].context_expr).endswith("__jobs_lock"):
-            return self.block(list(s.body) + rest)
+            self.lock_depth += 1
+            try:
+                return self.block(list(s.body) + [ast.Expr(value=ast.Constant(value="__unlock__"))] + rest)
+            finally:
+                self.lock_depth -= 1
         # d: dict[Job, float] = {}
         if isinstance(s, ast.AnnAssign) and isinstance(s.target, ast.Name) and ast.unparse(s.annotation) == "dict[Job, float]" \
                 and isinstance(s.value, ast.Dict) and not s.value.keys:
